@@ -303,6 +303,11 @@ def check_grid(ctx, R, rules=("R1", "R2", "R3", "R4", "R5", "R6"), prefix=()):
             got, want = want_of(*ls)
             g, w = path_rewrite(to_x(got), path), path_rewrite(to_x(want), path)
             st, why = compare(g, w, prepare=sched_env)
+            if st == UNKNOWN and "agree numerically" in why:
+                # the same clamp with a different bound: min(a, b) against min(a, b + c), c a non-zero constant.  The realistic configurations of the
+                # numeric cross-check rarely reach the bound, but the property names the cap (N-L+1 distinct positions), so a shifted bound is a violation
+                d_ = _shifted_clamp(g, w)
+                if d_ is not None: return VIOLATED, f"the clamp bound differs by the constant {d_!r}", g, w
             return st, why, g, w
         return p
     if "R1" in rules:
@@ -513,6 +518,26 @@ def check_lpsd_wrapper(ctx, repo):
 
 
 # ---------------------------------------------------------------------------- C02 / C04 rules
+def _shifted_clamp(g, w):
+    """c if g = min/max(a, b + c) and w = min/max(a, b) with the same a and a non-zero constant c, else None."""
+    def top(x):
+        if len(x.m) == 1 and not x.p and x.c == C(1):
+            (a, e), = x.m.items()
+            if e == 1 and a.tag == "fn" and a.name in ("min", "max") and len(a.args) == 2: return a
+        return None
+    ag, aw = top(g), top(w)
+    if ag is None or aw is None or ag.name != aw.name: return None
+    for i in (0, 1):
+        for j in (0, 1):
+            try:
+                if ag.args[i].eq(aw.args[j]):
+                    d = (ag.args[1 - i] - aw.args[1 - j]).constval()
+                    if d is not None and not d.iszero(): return ag.args[1 - i] - aw.args[1 - j]
+            except Unknown:
+                pass
+    return None
+
+
 def check_segmentation(ctx, R, rules=("R1", "R2", "R3", "R4", "R5"), prefix=()):
     key = R.key; fn = R.repo.get(key); where = R.repo.where(key, fn)
     if not isinstance(R.out, DictVal):
@@ -530,6 +555,9 @@ def check_segmentation(ctx, R, rules=("R1", "R2", "R3", "R4", "R5"), prefix=()):
             got, want = want_of(*ls)
             g, w = path_rewrite(to_x(got), path), path_rewrite(to_x(want), path)
             st, why = compare(g, w, prepare=sched_env)
+            if st == UNKNOWN and "agree numerically" in why:
+                d_ = _shifted_clamp(g, w)        # the cap N-L+1 written with another constant
+                if d_ is not None: return VIOLATED, f"the clamp bound differs by the constant {d_!r}", g, w
             return st, why, g, w
         return p
     if "R1" in rules:
